@@ -435,7 +435,8 @@ export class SchemaPrintingContext {
   }
 
   getRef(name: string): string {
-    return this.refPathTemplate.replace("{name}", name);
+    // a function replacement: "$$", "$&" ... in a type name are not replacement patterns
+    return this.refPathTemplate.replace("{name}", () => name);
   }
 
   hasDefinition(name: string): boolean {
